@@ -97,6 +97,11 @@ def main(argv_tier=None, replay_path=None):
             model["runs"].append({"scheme": s, "cfg": gi, "profiles": len(profs), "classes": n2, "distinct": r.distinct})
             for members in random_classes(s, cfg, rnd, tr):
                 classes.append((s, gi, cfg, members))
+    import sse_models
+    lruns, ltot = sse_models.levels_runs(tr)      # LevelFits for every choice of the random dummy keywords
+    model["runs"] += lruns
+    model["distinct"] += ltot["distinct"]
+    model["generated"] += ltot["generated"]
     sd = seed()
     jobs = []
     for ci, (s, gi, cfg, members) in enumerate(classes):
